@@ -66,7 +66,11 @@ fn resolve_style_references(
 ) -> HashMap<String, Style> {
     let mut resolved_styles = HashMap::new();
 
-    for starting_node in edges.keys() {
+    // Visit the styles in a fixed order, so that which cycle is reported (and how) does not
+    // depend on hash map iteration order.
+    let mut starting_nodes: Vec<&&str> = edges.keys().collect();
+    starting_nodes.sort();
+    for starting_node in starting_nodes {
         if resolved_styles.contains_key(*starting_node) {
             continue;
         }
@@ -75,7 +79,11 @@ fn resolve_style_references(
         loop {
             if !visited.insert(node) {
                 #[cfg(not(test))]
-                fatal(format!("Your delta styles form a cycle! {visited:?}"));
+                {
+                    let mut cycle: Vec<&str> = visited.iter().copied().collect();
+                    cycle.sort();
+                    fatal(format!("Your delta styles form a cycle! {cycle:?}"));
+                }
                 #[cfg(test)]
                 return [("__cycle__", Style::default())]
                     .iter()
